@@ -13,7 +13,7 @@
 //! tapes (one per tape of the case, cleared together with it) and repeats every operation element
 //! by element in row-major order of the view.
 
-use crate::c04::{binary_fn, extend, show_list, two, unary_fn, El, Rc, TapeBox, F1, F2};
+use crate::c04::{binary_fn, show_list, two, unary_fn, El, Rc, TapeBox, F1, F2};
 use crate::exact::{Fp, Rat};
 use crate::util::*;
 use easy_ml::differentiation::record_operations::SwappedOperations;
@@ -1956,7 +1956,7 @@ where
         "neg" => -x,
         "unary" => {
             let (f, df) = fns.unwrap();
-            extend(x.unary(|v| f(v), |v| df(v)))
+            x.unary(|v| f(v), |v| df(v))
         }
         _ => T::rec_real(x, op, k),
     }
@@ -1974,7 +1974,7 @@ where
         "ediv" => x / y,
         "binary" => {
             let (f, dfx, dfy) = fns.unwrap();
-            extend(x.binary(y, |a, b| f(a, b), |a, b| dfx(a, b), |a, b| dfy(a, b)))
+            x.binary(y, |a, b| f(a, b), |a, b| dfx(a, b), |a, b| dfy(a, b))
         }
         other => panic!("harness: unknown binary op {}", other),
     }
